@@ -180,7 +180,8 @@ class FaultRun:
         b = lambda x: "1" if x else "0"   # noqa: E731
         names = ",".join(r.name for r in cm.cmd_executing) or "-"
         q = ",".join(r.name for r in list(cm.cmd_queue.queue)) or "-"
-        return (f"st={b(e._runstate_started)}{b(e._runstate_paused)}{b(e._runstate_holding)}{b(e._runstate_stopping)} "
+        from harness import runstate as RS      # (the flags by role, whatever the attributes are called on this tree)
+        return (f"st={b(RS.flag(e, 'started'))}{b(RS.flag(e, 'paused'))}{b(RS.flag(e, 'holding'))}{b(RS.flag(e, 'stopping'))} "
                 f"sys={raw['System State']} ms={raw['Method Status']} le={b(e.has_error_state())} q={q} ex={names}")
 
     def tick(self, plan: dict[int, str], hf: str = "n") -> str:
